@@ -226,8 +226,15 @@ static int32_t wr_summary(struct jls_core_fsr_s * self, uint8_t level, bool clos
     uint32_t payload_len = (uint32_t) sizeof(dst->summary->header) + dst->summary->header.entry_count * entry_sz;
     ROE(jls_core_wr_summary(self->parent->parent, self->parent->signal_def.signal_id, JLS_TRACK_TYPE_FSR, level,
                             p_start, payload_len));
-    if (!closing || (((level + 1) < JLS_SUMMARY_LEVEL_COUNT) && self->level[level + 1])) {
-        // on close, only feed levels that already exist: this level may be the top.
+    bool feed = !closing;
+    if (closing && ((level + 1) < JLS_SUMMARY_LEVEL_COUNT)) {
+        // on close, this level may be the top: feed the next level when it already exists
+        // or when this chunk holds at least one full entry for it.  The reader selects
+        // the level from the request duration alone and expects to find it.
+        feed = self->level[level + 1]
+            || (dst->summary->header.entry_count >= self->parent->signal_def.summary_decimate_factor);
+    }
+    if (feed) {
         ROE(jls_core_fsr_summaryN(self, level + 1, pos_next));
     }
 
